@@ -18,9 +18,14 @@ ASSUMPTIONS = ["serde_json text layer trusted", "paths and strings are valid UTF
 
 
 def rand_str(r, allow_empty=True):
-    k = r.randrange(8)
+    k = r.randrange(10)
     if k == 0 and allow_empty:
         return ""
+    if k == 8:
+        # blank but not empty, and values that a "skip if it looks empty / default" predicate could mistake for nothing
+        return r.choice([" ", "\t", "\n", "  \t ", "\r\n", "\u00a0", "0", "null", "false", "{}", "\\0"])
+    if k == 9:
+        return r.choice([" lead", "trail ", "\ttab\t", "a\nb", "  x  "])
     if k == 1:
         return "café ☃ \"q\" \\ \t"
     if k == 2:
@@ -244,6 +249,40 @@ def cli_scenarios(R, g, n):
                 if "missing field" in msg or "Failed to parse" in msg or "parse plan" in msg.lower():
                     fails.append({"scenario": "stored plan copy unreadable", "tree": cli.tree_json(tree),
                                   "search": search, "replace": replace, "rc": [rc1, rcu, rcr], "stderr": msg[-800:]})
+                elif rcu == 0 and rcr == 0 and s1.snapshot() != t1:
+                    fails.append({"scenario": "redo from the stored plan copy does not reproduce the direct apply", "tree": cli.tree_json(tree),
+                                  "search": search, "replace": replace, "rc": [rc1, rcu, rcr],
+                                  "diff": repr(cli.diff_snap(t1, s1.snapshot()))[:1200]})
+    # `replace` with replacement texts that are blank, padded or look like JSON literals: direct == saved plan file == undo + redo
+    for j, rep in enumerate([" ", "\t", "  ", " x ", "null", "0", "\u00a0"][: (4 if n < 10 else 7)]):
+        a, b2 = g.term_pair()
+        term = gen.render(a, "Snake")
+        tree = [{"p": "post.md", "k": "f", "c": (f"my {term} post\n{term}{term}\n").encode(), "m": 0o644},
+                {"p": "d", "k": "d", "m": 0o755}, {"p": "d/other.txt", "k": "f", "c": (f"x{term}y\n").encode(), "m": 0o600}]
+        with cli.Sandbox(tree) as sa, cli.Sandbox(tree) as sb_, cli.Sandbox(tree) as sc:
+            base = ["--no-auto-init", "-y", "replace", "--no-regex", term, rep, "--no-rename-paths"]
+            rca, oa, ea = sa.run(base)
+            ta = sa.snapshot()
+            rcb1, ob1, eb1 = sb_.run(base + ["--dry-run", "--output", "json"])
+            (sb_.dir / "saved_plan.json").write_bytes(ob1)
+            try:
+                doc = json.loads(ob1.decode("utf-8"))
+                (sb_.dir / "saved_plan.json").write_text(json.dumps(doc.get("plan", doc)))
+            except Exception:
+                pass
+            rcb, ob, eb = sb_.run(["--no-auto-init", "-y", "apply", str(sb_.dir / "saved_plan.json")])
+            rcc, oc, ec = sc.run(base)
+            rcu, ou, eu = sc.run(["--no-auto-init", "-y", "undo", "latest"])
+            rcr, orr, er = sc.run(["--no-auto-init", "-y", "redo", "latest"])
+            R.case(("cli_blank", term, rep), nontrivial=True)
+            succeeded += rca == 0
+            ctx = {"tree": cli.tree_json(tree), "pattern": term, "replacement": rep}
+            if rca == 0 and rcb == 0 and sb_.snapshot() != ta:
+                fails.append({"scenario": "applying the saved plan file differs from applying directly", **ctx,
+                              "diff": repr(cli.diff_snap(ta, sb_.snapshot()))[:1000]})
+            elif rca == 0 and (rcu != 0 or rcr != 0 or sc.snapshot() != ta):
+                fails.append({"scenario": "undo + redo (stored plan copy) does not reproduce the direct apply", **ctx, "rc": [rcc, rcu, rcr],
+                              "stderr": (eu + er).decode("utf-8", "replace")[-400:], "diff": repr(cli.diff_snap(ta, sc.snapshot()))[:1000]})
     # a plan written over an older, longer, still unapplied plan file must be read back as itself
     for j in range(max(2, n // 3)):
         a, b2 = g.term_pair()
